@@ -162,6 +162,32 @@ def mutations(frame: bytes, seed: int, thorough: bool) -> Iterator[bytes]:
                     yield frame[:4] + k.to_bytes(2, "big") + frame[6:pos] + bytes((v,)) + frame[pos + 1:k]
 
 
+LIST_SERVICES = {0x0202: bytes.fromhex("0801c0a801020e57"), 0x020C: bytes.fromhex("0801c0a801020e57"), 0x0204: b"", 0x020B: bytes.fromhex("0801c0a801020e57")}
+
+
+def w_structures(service: int, lo: int, hi: int) -> Part:
+    """The length-prefixed structure lists (DIBs in search / description responses, SRPs in extended search requests): EVERY
+    type code x length octets {0..6, 8, 0x36, 0xFF} x (exactly / fewer / more octets than declared), as the only structure, after
+    a valid one and before a valid one - a structure that consumes nothing must not stall the list loop."""
+    part = Part()
+    prefix = LIST_SERVICES[service]
+    good = bytes.fromhex("0402020102060102") if service != 0x020B else bytes.fromhex("0482")  # supported families DIB / SRP select-by-programming-mode
+
+    def gen() -> Iterator[bytes]:
+        for code in range(lo, hi):
+            for ln in (0, 1, 2, 3, 4, 5, 6, 8, 0x36, 0xFF):
+                for have in sorted({max(ln, 2) - 2, 0, 1, 2, 6, max(ln, 2) - 1}):
+                    for fill in (0x00, 0xFF, 0x01):
+                        st = bytes((ln, code)) + bytes((fill,)) * have
+                        for body in (st, good + st, st + good, st + st):
+                            raw = prefix + body
+                            yield header(service, 6 + len(raw)) + raw
+
+    seen: set[bytes] = set()
+    run_cases((c for c in gen() if c not in seen and not seen.add(c)), part, budget=True)
+    return part
+
+
 def w_struct(idx: int, seed: int, thorough: bool) -> Part:
     part = Part()
     frame = valid_frames()[idx]
@@ -184,12 +210,14 @@ def run(ctx: Ctx) -> None:
         "KNXIPFrame.from_knx on: all byte strings of length <=2; every service type code (all enum members + 2 unassigned) x every body of <=2 octets; "
         f"and for {len(frames)} well-formed frames covering all 29 body classes: header variants (length octet, version, total length true/+-1/0/5/6/FFFF), every prefix truncation "
         "(announced length stale and corrected), appended octets, every body octet substituted by 12-16 values (thorough: adjacent pairs, truncation x substitution). "
+        "structure lists of SearchResponse / SearchResponseExtended / DescriptionResponse / SearchRequestExtended: EVERY structure type code 0..255 x length octet 0..6,8,0x36,0xFF x exact/short/long content x alone / after / before a valid structure / twice. "
         f"Each structured case runs under a {CASE_BUDGET_S}s timer. non-trivial = got past the header (frame, wrong result or escape)"
     )
     ctx.bounds = {"valid_frames": len(frames), "service_codes": len(service_codes()), "substitution_values": len(SUBST) + 4}
     ctx.assumptions = ["'bounded time and memory' is decided by a 0.5 s per-case timer (typical parse: 10 us); 'incomplete' is legitimate iff fewer than 6 octets or fewer than the announced length are present"]
     ctx.pmap(w_struct, [(i, ctx.seed, ctx.thorough) for i in range(len(frames))])
     ctx.pmap(w_short, [(c,) for c in service_codes()])
+    ctx.pmap(w_structures, [(svc, lo, lo + 32) for svc in LIST_SERVICES for lo in range(0, 256, 32)])
     ctx.pmap(w_tiny, [()])
 
 
